@@ -45,7 +45,7 @@ fn bj(b: &Universal2DBox) -> serde_json::Value {
 
 pub fn run(tier: Tier) -> Report {
     let rep = Report::new("C15", tier);
-    rep.set_rule("all unordered sets of <= 3 integer-cornered boxes on a 5-point lattice and of 4 on a 4-point lattice (thorough: also 3 on a 6-point lattice) against exact cell counting, all 6 orderings of each 3-set; sets of 3-4 boxes of very different sizes (unit boxes and boxes 7..12 cells long on a 12-cell lattice), exact as well; enumerated near-degenerate families (identical, shared / collinear edges, right-angle rotations, the angle menu of C08, 1..8 boxes; a rotated box across / inside an axis-aligned one (360 pairs); crowds of 9..40 boxes - pairs, chains, an isolated row with a covered / overlapped tail - in the given order and rotated) against inclusion-exclusion with an independent convex clipper; every ordered set of 2-3 boxes of a 4-box rotated menu x 6 preparations per box (polygon generated, then moved / turned / resized in place, with and without generating it again); the shares as VisualSort / BatchVisualSort store them with the detections (own-area threshold on; three sets of 2-4 boxes as scenes 0-2 in every assignment, 1-3 scenes per batch). Non-trivial = at least two boxes overlap.");
+    rep.set_rule("all unordered sets of <= 3 integer-cornered boxes on a 5-point lattice and of 4 on a 4-point lattice (thorough: also 3 on a 6-point lattice) against exact cell counting, all 6 orderings of each 3-set; sets of 3-4 boxes of very different sizes (unit boxes and boxes 7..12 cells long on a 12-cell lattice), exact as well; enumerated near-degenerate families (identical, shared / collinear edges, right-angle rotations, the angle menu of C08, 1..8 boxes; a frame-sized box with detections a few pixels across inside, on its border and outside; a rotated box across / inside an axis-aligned one (360 pairs); crowds of 9..40 boxes - pairs, chains, an isolated row with a covered / overlapped tail - in the given order and rotated) against inclusion-exclusion with an independent convex clipper; every ordered set of 2-3 boxes of a 4-box rotated menu x 6 preparations per box (polygon generated, then moved / turned / resized in place, with and without generating it again); the shares as VisualSort / BatchVisualSort store them with the detections (own-area threshold on; three sets of 2-4 boxes as scenes 0-2 in every assignment, 1-3 scenes per batch). Non-trivial = at least two boxes overlap.");
     rep.assume("exact integer cell counting / engine/src/geom.rs inclusion-exclusion; the crate's share is own/(area+1e-5), compared with tolerance 2e-5 + 1e-5/area");
     let evals = AtomicU64::new(0);
     let nontrivial = AtomicU64::new(0);
@@ -195,6 +195,24 @@ pub fn run(tier: Tier) -> Report {
         fam.push((format!("chain/{k}"), (0..k).map(|i| Universal2DBox::ltwh(i as f32 * 1.5, 0.25 * i as f32, 4.0, 2.0)).collect()));
         fam.push((format!("right-angle-fan/{k}"), (0..k).map(|i| Universal2DBox::new(0.0, 0.0, Some(i as f32 * PI / 2.0), 2.0, 1.0 + 0.25 * i as f32)).collect()));
         fam.push((format!("rot-chain/{k}"), (0..k).map(|i| Universal2DBox::new(i as f32 * 0.75, 0.0, Some(0.3 + 0.2 * i as f32), 0.5, 3.0)).collect()));
+    }
+    // a frame-sized box with detections a few pixels across inside it, on its border and outside (area ratios of
+    // 1e5 .. 1e6: whatever decides which pairs are clipped against each other must not be relative to the big box)
+    for (fw, fh) in [(1920.0f32, 1080.0f32), (4000.0, 3000.0), (640.0, 480.0)] {
+        for (k, small) in [(4.0f32, 4.0f32), (3.0, 5.0), (10.0, 10.0)].iter().enumerate() {
+            let (sw, sh) = *small;
+            fam.push((format!("frame-and-small/{fw}x{fh}/{k}"), vec![
+                Universal2DBox::ltwh(0.0, 0.0, fw, fh),
+                Universal2DBox::ltwh(100.0, 100.0, sw, sh),
+                Universal2DBox::ltwh(fw - sw / 2.0, 200.0, sw, sh),
+                Universal2DBox::ltwh(fw + 50.0, 20.0, sw, sh),
+                Universal2DBox::new(300.0, 400.0, Some(0.5), sw / sh, sh),
+            ]));
+            fam.push((format!("small-then-frame/{fw}x{fh}/{k}"), vec![
+                Universal2DBox::ltwh(250.0, fh - sh / 2.0, sw, sh),
+                Universal2DBox::ltwh(0.0, 0.0, fw, fh),
+            ]));
+        }
     }
     par_for(fam.len(), 1, |fi| {
         let (name, boxes) = &fam[fi];
